@@ -21,6 +21,8 @@ def run(ctx):
     simrules.noise_loop_no_break_rule(ctx, 'C09.j')
     ctx.decided.append('C09.j noise models look at every operation of a moment (no early exit from the accumulating loop)')
     simrules.repeated_key_map_rule(ctx, 'C09.k')
+    simrules.homogeneous_moment_predicate_rule(ctx, 'C09.l')
+    simrules.configured_duration_first_rule(ctx, 'C09.m')
     ctx.decided.append('C09.k a noise model that sets measurements aside by key keeps every measurement of a repeated key')
     ctx.decided.append('C09.i noise models reduce over the operations of a moment order-independently (e.g. the moment duration is the running maximum of the gate durations)')
     ctx.decided.append('C09.h final_density_matrix applies the noise model to the circuit as written, before measurements are deferred, and not again afterwards')
